@@ -379,9 +379,192 @@ def merge_part(run, n_desc):
                                      "track": kk2})
 
 
+# ---- shared static state: PStaticPattern / PGlobals / PCurrentTime ------------------------------------------
+STATIC_HEADER = "From Isobar Require Import Base.Prelude Sched.Static.\n"
+
+
+def gen_program(rng):
+    dyadic = rng.random() < 0.8
+    tpb = rng.choice([1, 2, 4, 8, 16]) if dyadic else rng.choice([10, 24, 100])
+    ticks = rng.choice([24, 32, 48, 64])
+    cyclic = rng.random() < 0.8
+    nv = rng.randint(2, 6) if cyclic else ticks + 2
+    vals = rng.sample(range(1, 500), nv)
+    nd = rng.choice([1, 1, 2, 3])
+    if dyadic:
+        durs = [F(rng.choice([1, 2, 3, 4, 6, 8, 12, 16, 20, 24, 40]), 16) for _ in range(nd)]
+    else:
+        durs = [rng.choice([F(1, 10), F(1, 4), F(3, 10), F(1, 2), F(1), F(3, 2), F(7, 10)]) for _ in range(nd)]
+    ntr = rng.randint(2, 4)
+    tracks = []
+    for k in range(ntr):
+        reads = "static" if k < 2 or rng.random() < 0.6 else "global"
+        tracks.append({"period": rng.choice([1, 2, 3, 4, 5, 7, tpb, 2 * tpb]), "offset": rng.choice([0, 0, 1, 2, 3, 5]),
+                       "reads": reads, "direct": rng.random() < 0.4, "sets": rng.random() < 0.35,
+                       "count": rng.choice([None, None, 3, 8])})
+    if not any(t["reads"] == "global" for t in tracks):
+        tracks[-1]["reads"] = "global" if ntr > 2 else tracks[-1]["reads"]
+    if not any(t["sets"] for t in tracks):
+        tracks[0]["sets"] = True
+    return {"tpb": tpb, "dyadic": dyadic, "static": {"vals": vals, "cyclic": cyclic, "durs": [[d.numerator, d.denominator] for d in durs]},
+            "default": -1, "tracks": tracks, "ticks": ticks}
+
+
+def linear_program(p):
+    """what the timeline makes the readers do, in order (scheduling order inside a tick; inside a turn: the event's
+    arguments are evaluated, then the callback runs): list of (kind, tick, track)"""
+    out = []
+    n = [0] * len(p["tracks"])
+    for tick in range(p["ticks"]):
+        for k, t in enumerate(p["tracks"]):
+            if tick < t["offset"] or (tick - t["offset"]) % t["period"]:
+                continue
+            if t["count"] is not None and n[k] >= t["count"]:
+                continue
+            out.append(("read" if t["reads"] == "static" else "get", tick, k))
+            out.append(("time", tick, k))
+            if t["direct"]:
+                out.append(("direct", tick, k))
+            if t["sets"]:
+                out.append(("set", tick, k, 100 * (k + 1) + n[k]))
+            n[k] += 1
+    return out
+
+
+def static_oracle(p, log):
+    """from the property text; exact fractions; a tolerance of 10^-9 beat where the code compares floats"""
+    bad = []
+    tpb = p["tpb"]
+    vals = p["static"]["vals"]
+    durs = [F(a, b) for a, b in p["static"]["durs"]]
+    eps = F(1, 10 ** 9)
+    # the records must be the ones the schedule asks for
+    want = linear_program(p)
+    if [tuple(x[:3]) for x in log] != [tuple(x[:3]) for x in want]:
+        bad.append(("read-schedule", "the callbacks ran in a different order / on different ticks than scheduled: %r vs %r"
+                    % ([tuple(x[:3]) for x in log][:12], [tuple(x[:3]) for x in want][:12])))
+        return bad
+    reads = [(x[1], x[3]) for x in log if x[0] in ("read", "direct")]
+    # every reader sees the same value at the same time
+    by_tick = {}
+    for tick, v in reads:
+        by_tick.setdefault(tick, set()).add(v)
+    for tick, vs in sorted(by_tick.items()):
+        if len(vs) > 1:
+            bad.append(("static-readers-disagree", "tick %d: the shared static pattern showed %r to different readers" % (tick, sorted(vs))))
+            break
+    # elements in order, each held for at least its duration, and left at the first read at or after its end
+    cur, start, idx = None, None, -1
+    for tick, v in reads:
+        if v == cur:
+            if (F(tick - start, tpb)) >= durs[idx % len(durs)] + eps:
+                bad.append(("static-held-too-long", "tick %d: value %r (element %d, started on tick %d, duration %s beats) is still shown after its end"
+                            % (tick, v, idx, start, durs[idx % len(durs)])))
+                break
+            continue
+        nxt = vals[(idx + 1) % len(vals)] if (p["static"]["cyclic"] or idx + 1 < len(vals)) else None
+        if v != nxt:
+            bad.append(("static-order", "tick %d: value %r shown, expected the next element %r of %r" % (tick, v, nxt, vals[:8]))); break
+        if cur is not None and F(tick - start, tpb) < durs[idx % len(durs)] - eps:
+            bad.append(("static-changed-early", "tick %d: value changed from %r to %r after %s beats, its stated duration is %s beats (reads so far: %d)"
+                        % (tick, cur, v, F(tick - start, tpb), durs[idx % len(durs)], len(reads))))
+            break
+        cur, start, idx = v, tick, idx + 1
+    # globals: the latest value set, or the default
+    g = p["default"]
+    for x in log:
+        if x[0] == "set":
+            g = x[3]
+        elif x[0] == "get" and x[3] != g:
+            bad.append(("globals", "tick %d: PGlobals returned %r, the latest value set is %r (default %r)" % (x[1], x[3], g, p["default"]))); break
+    # current time: the timeline's position
+    for x in log:
+        if x[0] == "time":
+            if abs(F(x[3]).limit_denominator(10 ** 7) - F(x[1], tpb)) > F(6, 10 ** 6):
+                bad.append(("current-time", "tick %d: PCurrentTime returned %r, the timeline is at %s beats" % (x[1], x[3], F(x[1], tpb)))); break
+    return bad
+
+
+def program_term(p, log):
+    U = p["tpb"]
+    acts, outs = [], []
+    for x in log:
+        kind, tick = x[0], x[1]
+        if kind in ("read", "direct"):
+            acts.append("ARead (r5 %s %s)" % (zlit(U), zlit(tick)))
+            outs.append("OStop" if x[3] == "stop" else "OVal %s" % zlit(x[3]))
+        elif kind == "get":
+            acts.append("AGet 0 %s" % zlit(p["default"])); outs.append("OVal %s" % zlit(x[3]))
+        elif kind == "set":
+            acts.append("ASet 0 %s" % zlit(x[3])); outs.append("ONone")
+        elif kind == "time":
+            acts.append("ATime %s %s" % (zlit(U), zlit(tick))); outs.append("OVal %s" % zlit(int(round(x[3] * 100000))))
+    st = p["static"]
+    durs = [F(a, b) * 100000 for a, b in st["durs"]]
+    assert all(d.denominator == 1 for d in durs)
+    return "list_eqb out_eqb (run_prog (static0 %s %s %s) [] %s) %s" % (
+        zlist(st["vals"]), blit(st["cyclic"]), zlist([int(d) for d in durs]), lst(acts), lst(outs))
+
+
+def static_part(run, n):
+    rng = run.rng
+    progs = [gen_program(rng) for _ in range(n)]
+    parts = [progs[i::8] for i in range(8) if progs[i::8]]
+    outs = run.impl_parallel("static_impl", [{"programs": q} for q in parts])
+    results = [None] * len(progs)
+    for si, out in enumerate(outs):
+        for j, r in enumerate(out["results"]):
+            results[si + j * 8] = r
+    terms, where = [], []
+    for pi, (p, r) in enumerate(zip(progs, results)):
+        run.count()
+        run.dist("static.programs")
+        if "driver_error" in r:
+            run.violation({"kind": "driver-error", "site": "static"}, {"part": "static", "program": p, "observed": r}, found_input=True)
+            continue
+        log = r["log"]
+        bad = static_oracle(p, log)
+        run.cov["oracle_evaluations"] += 1
+        nreads = sum(1 for x in log if x[0] in ("read", "direct"))
+        run.dist("static.reads", nreads)
+        run.dist("static.direct-reads", sum(1 for x in log if x[0] == "direct"))
+        run.dist("static.globals-sets", sum(1 for x in log if x[0] == "set"))
+        run.dist("static.grid." + ("dyadic" if p["dyadic"] else "decimal"))
+        ticks_multi = {}
+        for x in log:
+            if x[0] in ("read", "direct"):
+                ticks_multi.setdefault(x[1], set()).add((x[0], x[2]))
+        if any(len(v) >= 2 for v in ticks_multi.values()):
+            run.dist("static.programs-with-simultaneous-readers")
+            run.nontrivial(json.dumps(p, sort_keys=True))
+        seen = set()
+        for kind_, detail in bad:
+            if kind_ in seen:
+                continue
+            seen.add(kind_)
+            run.violation({"kind": kind_, "site": "PStaticPattern/PGlobals/PCurrentTime"}, {
+                "part": "static", "program": p, "observed": detail, "log_head": log[:40],
+                "python": "PYTHONPATH=/repo /venv/bin/python /verif/harness/impl/static_impl.py <<< '{\"programs\": [<program>]}'"})
+        if bad:
+            continue
+        if not p["dyadic"]:
+            run.discard("static program on a decimal grid: the code compares float differences (0.7 - 0.4 < 0.3); judged by the oracle only")
+            continue
+        terms.append(program_term(p, log)); where.append(pi)
+    badi = run.coq_failing(STATIC_HEADER, terms, chunk=40)
+    run.cov["static_programs_validated_against_model"] = len(terms) - len(badi)
+    run.cov["traces_validated_against_impl"] += len(terms) - len(badi)
+    for b in badi:
+        pi = where[b]
+        run.violation({"kind": "correspondence", "site": "Sched/Static.v"}, {
+            "part": "static", "broken": "correspondence Sched/Static.v <-> isobar PStaticPattern/PGlobals/PCurrentTime on this program",
+            "program": progs[pi], "observed": results[pi]["log"][:60]}, found_input=False)
+
+
 def check(run):
     n = 260 if run.tier == "quick" else 3000
     merge_part(run, n)
+    static_part(run, 240 if run.tier == "quick" else 3000)
     run.cov["rule"] = ("one case = one run on isobar's Timeline: a joint run of 1-6 tracks on distinct channels (random offsets/durations on a "
                        "common grid so that events coincide, scheduling-order permutations for <= 4 tracks, neighbours that finish / raise in "
                        "tolerant mode / are unscheduled) or the solo run of one of its tracks; non-trivial = joint run of >= 2 tracks with at "
@@ -389,6 +572,16 @@ def check(run):
 
 
 def replay(run, doc):
+    if doc.get("part") == "static":
+        r = run.impl("static_impl", {"programs": [doc["program"]]})["results"][0]
+        bad = static_oracle(doc["program"], r["log"]) if "log" in r else [("driver", r)]
+        print("log:", json.dumps(r.get("log", r))[:1500])
+        print("replay: oracle verdict:", bad or "ok")
+        if not bad and doc["program"].get("dyadic"):
+            m = run.coq_failing(STATIC_HEADER, [program_term(doc["program"], r["log"])])
+            print("model agrees:", not m)
+            return 1 if m else 0
+        return 1 if bad else 0
     if doc.get("part") == "merge" and "desc" in doc:
         fsc = doc["scenario"]
         r = S.run_impl(run, [fsc], shards=1)[0]
